@@ -77,7 +77,7 @@ fn main() {
     }
     let expected = Arc::new(expected);
     // reference(): every thread resolves its own paths (all paths of the document, rotated per thread)
-    let all_paths: Vec<String> = doc.query_only_path("$..*").unwrap_or_default();
+    let all_paths: Vec<String> = doc.query_only_path("$.*").unwrap_or_default().into_iter().take(4).collect();
     let ref_expected: Vec<String> = all_paths.iter().map(|p| doc.reference(p.clone()).map(|v| v.to_string()).unwrap_or("None".into())).collect();
     let all_paths = Arc::new(all_paths);
     let ref_expected = Arc::new(ref_expected);
@@ -93,8 +93,8 @@ fn main() {
         let ref_expected = ref_expected.clone();
         hs.push(std::thread::spawn(move || {
             if !with_regex && !all_paths.is_empty() {
-                for r in 0..4 {
-                    let i = (t * 3 + r * 5) % all_paths.len();
+                for r in 0..2 {
+                    let i = (t + r) % all_paths.len();
                     let got = doc.reference(all_paths[i].clone()).map(|v| v.to_string()).unwrap_or("None".into());
                     if got != ref_expected[i] {
                         eprintln!("MISMATCH thread={} reference({}) expected={} got={}", t, all_paths[i], ref_expected[i], got);
